@@ -36,10 +36,24 @@ Inductive newobs := NewFull (i : info) | NewSame (i : nat) | NewNone.
 
 (* what the implementation showed after one step: the objects whose coordinates changed (or that are new), the
    canonical buffer classes of all slots, and the containers of a newly created object *)
+Definition elems : Type := (list (list Z) * list (list Z) * list (list Z))%type.
 Record obs := mkobs {
   o_changed : list (nat * list (vec Qc));
   o_cls : option (list Z);        (* None: the same classes as after the previous step *)
-  o_new : newobs }.
+  o_new : newobs;
+  o_attrs : list (nat * attrs);   (* objects whose attributes are not what they were (a new object starts without any) *)
+  o_elems : list (nat * elems) }. (* objects whose element lists were edited *)
+
+Definition attr1_eqb (a b : Z * Z * list Z) : bool :=
+  Z.eqb (fst (fst a)) (fst (fst b)) && Z.eqb (snd (fst a)) (snd (fst b)) && zl_eqb (snd a) (snd b).
+(* attributes are a finite map (container, name) -> values: compared as sets of bindings *)
+Definition attrs_eqb (a b : attrs) : bool :=
+  Nat.eqb (length a) (length b) && forallb (fun x => existsb (attr1_eqb x) b) a.
+Definition elems_of (o : obj) : elems := (oedges o, ofaces o, occells o).
+Definition elems_eqb (a b : elems) : bool :=
+  let '(e1, f1, c1) := a in let '(e2, f2, c2) := b in zll_eqb e1 e2 && zll_eqb f1 f2 && zll_eqb c1 c2.
+Fixpoint patchl {A} (l : list A) (ch : list (nat * A)) : list A :=
+  match ch with [] => l | (i, x) :: t => patchl (upd l i x) t end.
 
 Fixpoint patch (snap : list (list (vec Qc))) (ch : list (nat * list (vec Qc))) : list (list (vec Qc)) :=
   match ch with
@@ -72,8 +86,11 @@ Definition agree_new (w : world (T:=Qc)) (infos : list info) (n : newobs) (creat
   | _, None => None
   end.
 
+Definition agree_state (w : world (T:=Qc)) (ats : list attrs) (els : list elems) : bool :=
+  all2 (fun o a => attrs_eqb (oattr o) a) (wobjs w) ats && all2 (fun o e => elems_eqb (elems_of o) e) (wobjs w) els.
+
 Fixpoint check_from (w : world (T:=Qc)) (snap : list (list (vec Qc))) (cls : list Z) (infos : list info)
-                    (h : list (op (T:=Qc) * obs)) : bool :=
+                    (ats : list attrs) (els : list elems) (h : list (op (T:=Qc) * obs)) : bool :=
   match h with
   | [] => true
   | (o, ob) :: t =>
@@ -83,11 +100,18 @@ Fixpoint check_from (w : world (T:=Qc)) (snap : list (list (vec Qc))) (cls : lis
           let snap' := patch snap (o_changed ob) in
           let cls' := match o_cls ob with Some c => c | None => cls end in
           let created := (length (wobjs w) <? length (wobjs w'))%nat in
+          (* a new object enters the stores without attributes and with the element lists the model gave it (those were
+             compared with the observation by agree_new); observed changes are patched in, then everything is compared *)
+          let ats0 := if created then ats ++ [[]] else ats in
+          let els0 := if created then els ++ match rev (wobjs w') with x :: _ => [elems_of x] | [] => [] end else els in
+          let ats' := patchl ats0 (o_attrs ob) in
+          let els' := patchl els0 (o_elems ob) in
           match agree_new w' infos (o_new ob) created with
           | None => false
-          | Some infos' => agree_coords w' snap' && zl_eqb (classes w') cls' && check_from w' snap' cls' infos' t
+          | Some infos' => agree_coords w' snap' && zl_eqb (classes w') cls' && agree_state w' ats' els'
+                           && check_from w' snap' cls' infos' ats' els' t
           end
       end
   end.
 
-Definition check_case (h : list (op (T:=Qc) * obs)) : bool := check_from (w0 (T:=Qc)) [] [] [] h.
+Definition check_case (h : list (op (T:=Qc) * obs)) : bool := check_from (w0 (T:=Qc)) [] [] [] [] [] h.
